@@ -132,7 +132,7 @@ CLAIMED["C15"] = (
 # clauses added in later rounds (seeded changes, systematic mutants, defects D7-D10); appended to the `Decides` text
 ADDENDA = {
     "C01": "Later clauses: a cache hit records its observation; backward projection collects exactly projections; CalleeOrder updates are order-preserving and abort_callee removes exactly the callee; "
-           "the popped stripped-buffer edge is the one processed; firewall set and the observations of its members are replaced together with the callees' current fingerprints (D8). Round 5: only abort_callee / clear take entries out of the recorded order; C01.o is a lower bound (User, RepairFirewall); KNOWN FINDINGS K1 (C01.t: a callee read by an executor for the first time is verified against unrepaired firewalls) and K2 (C01.u, two sites: a pending backward projection is honoured only at its own epoch) are reported as KNOWN-FINDING lines, see DESIGN 6b.",
+           "the popped stripped-buffer edge is the one processed; firewall set and the observations of its members are replaced together with the callees' current fingerprints (D8). Round 5: only abort_callee / clear take entries out of the recorded order; C01.o is a lower bound (User, RepairFirewall); KNOWN FINDING K1 (C01.t: a callee read by an executor for the first time is verified against unrepaired firewalls) is reported as a KNOWN-FINDING line, see DESIGN 6b; K2 (C01.u: a pending backward projection honoured only at its own epoch) was repaired as D19 and the clause is armed.",
     "C02": "Later clauses: upgrade_to_exclusive resets every memoised column after re-acquiring; the tier upgrade of a caller set re-inserts every drained member; the key-of-set loader / overlay / merging reader "
            "clauses of C09 (as C02.h), because caller sets are key-of-set entries. Round 5: epoch read under the phase lock (C04.a as C02.j); KNOWN FINDING K3 (C02.i: the undo token of register_callee belongs to the call, not to the registration).",
     "C03": "Later clause: no Recompute is reachable from a Cleaned / NoNeed answer of a callee check (only a changed value forces re-execution). Round 5: observations of every callee survive a clean verification (C01.s as C03.k).",
@@ -194,7 +194,7 @@ m = {
     "not_applicable": [{"property_id": i, "reason": NOT_YET} for i in ids if i not in CLAIMED],
     "notes": "Technique family: static analysis only (no execution of the engine). quick = all rules on the RocksDB-free build shape (plus the shapes a rule names itself); "
              "thorough = quick plus a second pass of every rule on the full workspace build (default features, integration-test crate). See DESIGN.md. "
-             "Fixed defects (D1-D18) and the known findings K1, K2, K4, K5, K7 (recorded, not repaired; printed as KNOWN-FINDING lines, exit 0) are in known_findings.json and DESIGN.md sections 6 / 6b.",
+             "Fixed defects (D1-D19) and the known findings K1, K4, K5, K7 (recorded, not repaired; printed as KNOWN-FINDING lines, exit 0) are in known_findings.json and DESIGN.md sections 6 / 6b.",
 }
 json.dump(m, open(os.path.join(HERE, "MANIFEST.json"), "w"), indent=1)
 print("claimed:", [c["property_id"] for c in checks])
